@@ -59,7 +59,9 @@ def case_strategy(big):
     content = st.one_of(st.sampled_from(CONTENTS), st.binary(max_size=200), st.text(max_size=60).map(lambda t: t.encode('utf-8', 'ignore')),
                         st.sampled_from([8383, 8384, 65536] if big else [300]).flatmap(lambda n: st.binary(min_size=n, max_size=n))).map(lambda b: b.hex())
     content = st.one_of(content, content, content, st.sampled_from(['repeat:12000:2', 'repeat:30000:2', 'repeat:8200:3', 'repeat:33000:2']))
-    fname = st.sampled_from([None, None, 'plain.txt', 'ünïcödé.txt', '日本.bin', 'x' * 200, 'sp ace.txt', 'n' * 85 + '.dat'])
+    fname = st.sampled_from([None, None, 'plain.txt', 'ünïcödé.txt', '日本.bin', 'x' * 200, 'sp ace.txt', 'n' * 85 + '.dat',
+                             # exactly 255 octets of UTF-8: ending in a three-octet, a two-octet and a one-octet character; and 254
+                             'a' * 252 + '日', 'b' * 253 + 'é', 'é' * 127 + 'c', 'd' * 251 + '日'])
     return st.fixed_dictionaries({
         'dir': st.sampled_from(['own', 'own', 'foreign']),
         'content': content,
@@ -320,7 +322,7 @@ def matrix(arg):
                     if i % nparts != part:
                         continue
                     c = {'dir': d, 'content': CONTENTS[i % len(CONTENTS)].hex(), 'ctype': ['bytes', 'str'][i % 2], 'fmt': fmt, 'encoding': None,
-                         'fname': [None, 'plain.txt', 'ünï.txt'][i % 3], 'mtime': 1234567890 + i, 'sensitive': False, 'comp': comp,
+                         'fname': [None, 'plain.txt', 'ünï.txt', 'a' * 252 + '日', 'b' * 253 + 'é'][i % 5], 'mtime': 1234567890 + i, 'sensitive': False, 'comp': comp,
                          'signers': [(SIGNERS[(i + k) % len(SIGNERS)], [0, 0, 3][k % 3]) for k in range(nsig)], 'transport': ['bin', 'asc'][i % 2],
                          'hdr': ['new', 'old', 'partial', 'new5', 'indeterminate'][i % 5]}
                     evaluate(c, rec)
